@@ -195,6 +195,8 @@ impl<'a> SubDeviceRef<'a> {
                     && final(self).state.config.io.input == old(self).state.config.io.input,
             }
         }),
+@before "return Err(Error::InvalidState"
+    proof { assert(state != SubDeviceState(2)); }      // refused ONLY when the device is not in PRE-OP
 @*/
 
 /*@fn file=src/subdevice/configuration.rs impl="impl<S> SubDeviceRef<'_, S>" name=write_fmmu_config props=C08,C13
